@@ -32,6 +32,7 @@
 
 //! Builder for decision table evaluators.
 
+use crate::errors::*;
 use dmntk_common::Result;
 use dmntk_feel::context::FeelContext;
 use dmntk_feel::values::{Value, Values};
@@ -258,6 +259,10 @@ impl EvaluatedDecisionTable {
 
 ///
 fn parse_decision_table(scope: &Scope, decision_table: &DecisionTable) -> Result<ParsedDecisionTable> {
+  // a decision table must have at least one output clause
+  if decision_table.output_clauses.is_empty() {
+    return Err(err_decision_table_without_output_clauses());
+  }
   // parse input expressions and input values
   let mut input_expressions_and_values = vec![];
   for input_clause in &decision_table.input_clauses {
@@ -294,7 +299,8 @@ fn parse_decision_table(scope: &Scope, decision_table: &DecisionTable) -> Result
     // parse input clause
     let mut input_entries_evaluators = vec![];
     for (i, (input_expression, input_values)) in input_expressions_and_values.iter().enumerate() {
-      let input_entry_node = dmntk_feel_parser::parse_unary_tests(scope, &rule.input_entries[i].text, false)?;
+      let input_entry = rule.input_entries.get(i).ok_or_else(err_rule_entries_do_not_match_clauses)?;
+      let input_entry_node = dmntk_feel_parser::parse_unary_tests(scope, &input_entry.text, false)?;
       if let Some(input_values_node) = input_values {
         let left = AstNode::In(Box::new(input_expression.clone()), Box::new(input_values_node.clone()));
         let right = AstNode::In(Box::new(input_expression.clone()), Box::new(input_entry_node));
@@ -308,7 +314,8 @@ fn parse_decision_table(scope: &Scope, decision_table: &DecisionTable) -> Result
     // parse output clause
     let mut output_entries_evaluators = vec![];
     for (i, output_values) in output_values_nodes.iter().enumerate() {
-      let output_entry_node = dmntk_feel_parser::parse_expression(scope, &rule.output_entries[i].text, false)?;
+      let output_entry = rule.output_entries.get(i).ok_or_else(err_rule_entries_do_not_match_clauses)?;
+      let output_entry_node = dmntk_feel_parser::parse_expression(scope, &output_entry.text, false)?;
       if let Some(output_value_node) = output_values {
         let node = AstNode::Out(Box::new(output_entry_node), Box::new(output_value_node.clone()));
         output_entries_evaluators.push(dmntk_feel_evaluator::prepare(&node)?);
